@@ -218,7 +218,7 @@ func init() {
 			return []core.Section{
 				{Name: "component-trees", N: n, Run: func(c *core.Ctx, i int) {
 					cc := genComponentTree(c, i)
-					files := cc.tree.sources(exprLayouts[i%2].st(c.Rng))
+					files := cc.tree.sources(exprLayouts[[]int{0, 1, 3, 1}[i%4]].st(c.Rng))
 					tpl, err := loadTree(c, treeDir(cc.tree), files, cc.tree.ext)
 					c.Nontrivial(fmt.Sprint(files))
 					if i < 2 {
